@@ -50,12 +50,15 @@ Definition union_uid (a b : list uid) : list uid := fold_left (fun acc u => inse
 (* ------------------------------------------------------------------ nodes, numbers *)
 (* l_u, l_df: codes of the float attributes (compared with == by new_leaf); l_df = -1 is inf.
    l_corr: the `correlation` dict (absent on independent leaves), values are codes of r (r*8).
-   l_ens: the `ensemble` set (absent on independent leaves) as a list of uids sorted by uid. *)
+   l_ens: the `ensemble` attribute (absent on independent leaves): (g, members).  The members of an
+   ensemble SHARE one set object (lib.real_ensemble / append_real_ensemble); g names the object (the
+   uid of the leaf it was made for), members is its content sorted by uid.  Leaves with the same g
+   always have the same members: an in-place change of the set is made on all of them. *)
 Record leaf := mkLeaf {
   l_label : option string; l_u : Z; l_df : Z; l_indep : bool;
   l_complex : option (uid * uid);              (* the `complex` attribute: a tuple of two uids (every reader builds a tuple) *)
   l_corr : option (list (uid * Z));
-  l_ens : option (list uid) }.
+  l_ens : option (uid * list uid) }.
 
 Definition isig := (option string * Z)%type.      (* Node: label, code of (u, df) *)
 
@@ -214,7 +217,7 @@ Definition leaf_same (label : option string) (u df : Z) (indep : bool) (l : leaf
   ostr_eqb label (l_label l) && (u =? l_u l) && (df =? l_df l) && Bool.eqb indep (l_indep l).
 
 Definition fresh_leaf (u : uid) (label : option string) (lu df : Z) (indep : bool) : leaf :=
-  mkLeaf label lu df indep None (if indep then None else Some [(u, 8)]) (if indep then None else Some []).
+  mkLeaf label lu df indep None (if indep then None else Some [(u, 8)]) (if indep then None else Some (u, [])).
 
 (* Context.new_leaf: reuse a registered indistinguishable node, raise if it differs, else create *)
 Definition new_leaf (s : session) (u : uid) (label : option string) (lu df : Z) (indep : bool)
@@ -353,6 +356,20 @@ Definition thaw_corr (live archived : option (list (uid * Z))) : option (list (u
   | None => live
   | Some c' => match live with Some c => Some (corr_merge c c') | None => Some c' end
   end.
+(* `ensemble`: a node that was live already keeps its (shared) set object, extended IN PLACE by the
+   archived members (l.ensemble.update: every leaf sharing the object sees it); a node the load
+   creates -- or a live node without the attribute -- gets a private copy of the archived set *)
+Definition ens_union (c e : list uid) : list uid := fold_left (fun acc u => insert_uid u acc) e c.
+Definition ens_extend (g : uid) (e : list uid) (l : leaf) : leaf :=
+  match l_ens l with
+  | Some (g', c) => if uid_eqb g' g then mkLeaf (l_label l) (l_u l) (l_df l) (l_indep l) (l_complex l) (l_corr l)
+                                                (Some (g', ens_union c e))
+                    else l
+  | None => l
+  end.
+Definition ens_update (s : session) (g : uid) (e : list uid) : session :=
+  w_leaves s (map (fun p => (fst p, ens_extend g e (snd p))) (s_leaves s)).
+
 Fixpoint thaw_leaves (s : session) (ln : list (uid * leaf)) : session * res unit :=
   match ln with
   | [] => (s, Ok tt)
@@ -360,13 +377,22 @@ Fixpoint thaw_leaves (s : session) (ln : list (uid * leaf)) : session * res unit
       match new_leaf s u (l_label fl) (l_u fl) (l_df fl) (l_indep fl) with
       | Err e => (s, Err e)
       | Ok (s1, l) =>
+          let live := dmem uid_eqb (s_leaves s) u in
           let l1 := mkLeaf (l_label l) (l_u l) (l_df l) (l_indep l)
                            (match l_complex fl with Some c => Some c | None => l_complex l end)
-                           (if dmem uid_eqb (s_leaves s) u then thaw_corr (l_corr l) (l_corr fl)
+                           (if live then thaw_corr (l_corr l) (l_corr fl)
                             else match l_corr fl with Some c => Some c | None => l_corr l end)
-                           (* l.ensemble = set(fl_i.ensemble): assigned, also onto a live node *)
-                           (match l_ens fl with Some e => Some e | None => l_ens l end) in
-          thaw_leaves (w_leaves s1 (lset (s_leaves s1) u l1)) t
+                           (match l_ens fl, live, l_ens l with
+                            | Some _, true, Some _ => l_ens l                (* extended below, in place *)
+                            | Some (_, e), _, _ => Some (u, e)               (* l.ensemble = set(fl_i.ensemble) *)
+                            | None, _, _ => l_ens l
+                            end) in
+          let s2 := w_leaves s1 (lset (s_leaves s1) u l1) in
+          let s3 := match l_ens fl, live, l_ens l with
+                    | Some (_, e), true, Some (g, _) => ens_update s2 g e
+                    | _, _, _ => s2
+                    end in
+          thaw_leaves s3 t
       end
   end.
 
@@ -618,6 +644,7 @@ Inductive op :=
 | OMul (a b : nat)                                              (* a * b *)
 | OResult (a : nat) (lbl : option string) (sg1 sg2 : Z)         (* result(a, label) *)
 | OSetCorr (a b : nat) (r : Z)                                  (* set_correlation(r/8, a, b) *)
+| OAppendEns (member x : nat)                                   (* lib.append_real_ensemble(member, x): what fit predictions do *)
 | OArchive                                                      (* Archive() *)
 | OAdd (ar : nat) (kw : list (string * nat))                    (* ar.add with keyword arguments kw *)
 | OExtract (ar : nat) (names : list string)                     (* ar.extract with the given names *)
@@ -701,7 +728,7 @@ Definition corr_allowed (s : session) (u v : uid) : bool :=
   match lget (s_leaves s) u, lget (s_leaves s) v with
   | Some lu, Some lv =>
       ((l_df lu =? -1) && (l_df lv =? -1))
-      || match l_ens lu with Some e => existsb (uid_eqb v) e | None => false end
+      || match l_ens lu with Some (_, e) => existsb (uid_eqb v) e | None => false end
   | _, _ => false
   end.
 Definition corr_set (s : session) (u v : uid) (r : Z) : session :=
@@ -729,7 +756,7 @@ Fixpoint decl_many (s : session) (specs : list (option string * Z)) (df : Z) : s
       end
   end.
 Definition robj_uid (r : robj) : list uid := match r_node r with NLeaf u => [u] | _ => [] end.
-Definition set_ens (s : session) (e : list uid) (u : uid) : session :=
+Definition set_ens (s : session) (e : uid * list uid) (u : uid) : session :=
   match lget (s_leaves s) u with
   | Some l => w_leaves s (lset (s_leaves s) u (mkLeaf (l_label l) (l_u l) (l_df l) (l_indep l) (l_complex l) (l_corr l) (Some e)))
   | None => s
@@ -757,7 +784,7 @@ Definition step0 (st : state) (o : op) : state * out :=
       | (s1, Err e) => (w_ses st s1, OutErr e)
       | (s1, Ok rs) =>
           let us := flat_map robj_uid rs in
-          let e := fold_left (fun acc u => insert_uid u acc) us [] in
+          let e := (match us with u1 :: _ => u1 | [] => (0, 0) end, fold_left (fun acc u => insert_uid u acc) us []) in
           (mkSt (fold_left (fun acc u => set_ens acc e u) us s1) (st_objs st ++ map PReal rs) (st_ars st) (st_docs st),
            OutObjs (map PReal rs))
       end
@@ -833,6 +860,28 @@ Definition step0 (st : state) (o : op) : state * out :=
                  && negb (r =? 0) && (-8 <=? r) && (r <=? 8)
               then (w_ses st (corr_set (corr_set s ux uy r) uy ux r), OutOk)
               else (st, OutSkip)
+          | _, _ => (st, OutSkip)
+          end
+      | _, _ => (st, OutSkip)
+      end
+  | OAppendEns a b =>
+      match nth_error (st_objs st) a, nth_error (st_objs st) b with
+      | Some (PReal m), Some (PReal x) =>
+          match r_node m, r_node x with
+          | NLeaf um, NLeaf ux =>
+              match lget (s_leaves s) um, lget (s_leaves s) ux with
+              | Some lm, Some lx =>
+                  match l_ens lm with
+                  | Some (g, c) =>
+                      if negb (uid_eqb um ux) && negb (l_indep lx) && (l_df lx =? l_df lm) && plain m && plain x then
+                        (* member._node.ensemble.add(x uid); x._node.ensemble = member._node.ensemble *)
+                        let s1 := ens_update s g [ux] in
+                        (w_ses st (set_ens s1 (g, ens_union c [ux]) ux), OutOk)
+                      else (st, OutSkip)
+                  | None => (st, OutSkip)
+                  end
+              | _, _ => (st, OutSkip)
+              end
           | _, _ => (st, OutSkip)
           end
       | _, _ => (st, OutSkip)
